@@ -1,8 +1,10 @@
 CONSTANTS
   Slot = {1, 2, 3}
   Alloc = {1, 2}
+  MaxH = 4
   Thread = {1, 2}
 SPECIFICATION Spec
 VIEW View
-INVARIANTS TypeOK StrongExact DroppedIffUnreferenced NoDangling
+CONSTRAINT Bounded
+INVARIANTS TypeOK StrongExact DroppedIffUnreferenced NoDangling HandleOnce HandleHeld HandleNoAlias
 CHECK_DEADLOCK FALSE
